@@ -1,5 +1,6 @@
 /- Wire format between the Rust harness and the model driver (DESIGN.md appendix A). -/
 import Preflate.Model.Deflate
+import Preflate.Model.Spec
 namespace Preflate.Driver
 open Preflate
 
@@ -66,5 +67,11 @@ def rewriteLine (d : List UInt8) : String :=
     let p ← parse d
     let w ← writeStream p.blocks p.eofPadding
     pure (w, p.consumed d)) fun (w, c) => s!"ok {fnvBytes w} {c}"
+
+/-- `spec` request: the RFC-table inflater -/
+def specLine (d : List UInt8) : String :=
+  match Spec.inflate d with
+  | some (plain, n) => s!"ok {fnvNatsAsBytes plain.toList} {n}"
+  | none => "reject"
 
 end Preflate.Driver
